@@ -356,9 +356,10 @@ def format_rules(rep, prog):
     accepted = {}
     for b0 in (ord("P"), ord("Q")):
         for b1 in range(ord("0"), ord("9") + 1):
-            it = A.Interp(prog)
+            from . import symalg as _S
+            it = _S.interp(prog)          # with the iterator / Option models: a table lookup (`find`, `position`) is as good as a match
             try:
-                r = it.call_body(tf, [("array", [b0, b1])])
+                r = A.deref_all(it, it.call_body(tf, [("array", [b0, b1])]))
             except (A.Undecided, A.Panic) as e:
                 raise common.Infra("C13.T-format: Format::try_from could not be evaluated abstractly: %s" % e)
             if isinstance(r, tuple) and r[0] == "adt" and r[2] == "Ok":
